@@ -1,7 +1,7 @@
 ------------------------------ MODULE HInstGen ------------------------------
 \* G step of C08: generic declarations with bounded, mutually dependent and variant type parameters; every partial
 \* pre-assignment from a small pool, variance-choice map and switch setting.
-EXTENDS HTypes, TLC, Json, SequencesExt
+EXTENDS HTypes, TLC, Json, SequencesExt, FiniteSets
 VARIABLE q
 Vs == {"inv", "out", "in"}
 Num == Cls("Number", <<>>)
@@ -18,6 +18,8 @@ Decl(d, va, vb) ==
     [] d = "G4" -> <<TP("T1", "inv", <<Num>>), TP("T2", "inv", <<Var("T1", <<Num>>)>>), TP("T3", "inv", <<Var("T2", <<Var("T1", <<Num>>)>>)>>)>>
     [] d = "G5" -> <<TP("T1", va, <<>>), TP("T2", vb, <<Foo(v1)>>)>>
     [] d = "G6" -> <<TP("T1", va, <<>>), TP("T2", vb, <<>>)>>
+    \* the language's built-in function type Function2<A1, A2, R> (the driver takes the real constructor and its declared variance)
+    [] d = "F2" -> <<TP("A1", "inv", <<>>), TP("A2", "inv", <<>>), TP("R", "inv", <<>>)>>
 Table(d, va, vb) ==
   [Any    |-> [tp |-> <<>>, sup |-> <<>>, kind |-> "regular"],
    Number |-> [tp |-> <<>>, sup |-> <<TopT>>, kind |-> "regular"],
@@ -44,9 +46,20 @@ Shapes == {[d |-> d, va |-> va, vb |-> vb] : d \in {"G1", "G2"}, va \in Vs, vb \
 \* bounds never mention a contravariant parameter (BoundsWF of HTypes); generic functions: no variance at all
 D(sh) == Decl(sh.d, sh.va, sh.vb)
 GoodShapes == {s \in Shapes : BoundsWF([G |-> [tp |-> D(s), sup |-> <<>>]])}
-Init == \E sh \in GoodShapes : \E pr \in Pres(D(sh)) : \E sw \in Switches :
-          \/ \E ch \in VChoices(D(sh)) : q = [sh |-> sh, pre |-> pr, choices |-> ch, sw |-> sw, fn |-> FALSE]
-          \/ sh.va = "inv" /\ sh.vb = "inv" /\ q = [sh |-> sh, pre |-> pr, choices |-> NoChoices, sw |-> sw, fn |-> TRUE]
+\* the caller's options (HTypeOps.EffChoices): enable_pecs, disable_variance_functions, disable_variance
+DefOpt == [isfun |-> FALSE, pecs |-> TRUE, dvf |-> FALSE, dv |-> FALSE]
+Opts(isfun) == [isfun : {isfun}, pecs : BOOLEAN, dvf : BOOLEAN, dv : BOOLEAN]
+FShape == [d |-> "F2", va |-> "inv", vb |-> "inv"]
+SmallPres(tps) == {pr \in Pres(tps) : Cardinality(DOMAIN pr) <= 1 /\ \A x \in DOMAIN pr : pr[x] \in {IntT, Wild("out", <<Num>>)}}
+Init == \/ \E sh \in GoodShapes : \E pr \in Pres(D(sh)) : \E sw \in Switches :
+             \/ \E ch \in VChoices(D(sh)) : q = [sh |-> sh, pre |-> pr, choices |-> ch, sw |-> sw, fn |-> FALSE, opt |-> DefOpt]
+             \/ sh.va = "inv" /\ sh.vb = "inv" /\ q = [sh |-> sh, pre |-> pr, choices |-> NoChoices, sw |-> sw, fn |-> TRUE, opt |-> DefOpt]
+        \* function types under every combination of the caller's options; ordinary classes with variance disabled by the caller
+        \/ \E pr \in SmallPres(D(FShape)) : \E sw \in Switches : \E ch \in VChoices(D(FShape)) : \E o \in Opts(TRUE) :
+             q = [sh |-> FShape, pre |-> pr, choices |-> ch, sw |-> sw, fn |-> FALSE, opt |-> o]
+        \/ \E sh \in {s \in GoodShapes : s.d \in {"G1", "G6"}} : \E pr \in SmallPres(D(sh)) : \E sw \in Switches : \E ch \in VChoices(D(sh)) :
+             \E o \in {x \in Opts(FALSE) : x.dv \/ x.dvf} :
+             q = [sh |-> sh, pre |-> pr, choices |-> ch, sw |-> sw, fn |-> FALSE, opt |-> o]
 Next == UNCHANGED q
 Consistent == TRUE
 Emit == Consistent => PrintT(ToJson([id |-> q, ct |-> Table(q.sh.d, q.sh.va, q.sh.vb), order |-> Order, tps |-> Decl(q.sh.d, q.sh.va, q.sh.vb)]))
